@@ -625,12 +625,14 @@ impl<'a, 'b> GeneratorState<'a> {
                         }
                         self.sasm(TYA)?;
                         self.acc_in_use = true;
+                        // 'operator' and 'right' already account for the negation and for the
+                        // exchange of the operands
                         return self.generate_condition_ex(
                             &ExprType::A(false),
-                            op,
-                            r,
+                            &operator,
+                            right,
                             pos,
-                            negate,
+                            false,
                             label,
                         );
                     }
@@ -678,12 +680,14 @@ impl<'a, 'b> GeneratorState<'a> {
                         }
                         self.sasm(TXA)?;
                         self.acc_in_use = true;
+                        // 'operator' and 'right' already account for the negation and for the
+                        // exchange of the operands
                         return self.generate_condition_ex(
                             &ExprType::A(false),
-                            op,
-                            r,
+                            &operator,
+                            right,
                             pos,
-                            negate,
+                            false,
                             label,
                         );
                     }
